@@ -325,33 +325,29 @@ def skeleton_case(rng, placed, fbmode, nprobe=2, final=True):
 
 
 def random_case(rng):
+    """a random history inside the property's quantifier: distinct sinks, one rule per key, startTestRun and
+    stopTestRun alternating (the behaviour on duplicate keys is documented as undefined, and a second
+    startTestRun without a stopTestRun is outside the StreamResult protocol: neither is generated, although the
+    model covers both)"""
     n_ops = rng.randint(4, 22)
     ops = []
     free = [1, 2, 3, 4, 5]
     rng.shuffle(free)
-    wild = rng.random() < 0.25        # duplicate keys / shared sinks / unbalanced start-stop allowed
     in_run = False
     used_keys = set()
     opts = rule_options()
     for _ in range(n_ops):
         x = rng.random()
-        if x < 0.22 and (free or wild):
+        if x < 0.22 and free:
             rule = rng.choice(opts)
             key = (rule[0], rule[1])
-            if key in used_keys and not wild:
+            if key in used_keys:
                 continue
             used_keys.add(key)
-            if wild and (not free or rng.random() < 0.3):
-                sink = rng.randint(0, NSINKS - 1)
-            else:
-                sink = free.pop()
-            ops.append(mk_rule(rule, sink))
+            ops.append(mk_rule(rule, free.pop()))
         elif x < 0.40:
-            if wild and rng.random() < 0.4:
-                ops.append([rng.choice(["S", "T"])])
-            else:
-                ops.append(["T" if in_run else "S"])
-                in_run = not in_run
+            ops.append(["T" if in_run else "S"])
+            in_run = not in_run
         else:
             ops.append(["E", list(rng.choice(VIAS)), rand_event(rng)])
     fbmode = rng.choice([0, 1, 2, 2])
@@ -388,11 +384,6 @@ def fixed_cases():
                                                   ["E", [0], ev([3, 1])], ["E", [1, 5], ev([2])], ["E", [0, 0, 0], ev([0])]]},
         # empty history
         {"n": 1, "fb": 0, "fb_ss": True, "ops": []},
-        # start twice / stop without start
-        {"n": 2, "fb": 0, "fb_ss": True, "ops": [["T"], ["S"], ["S"], ["I", 1, None, True], ["T"], ["T"]]},
-        # duplicate key: the later rule wins, the earlier sink stays registered for start/stop
-        {"n": 3, "fb": None, "fb_ss": False, "ops": [["P", 1, 0, False, True], ["P", 2, 0, True, False], ["S"],
-                                                     ["E", [], ev([0, 1])], ["T"]]},
     ]
 
 
@@ -418,7 +409,7 @@ def generate(rng, tier):
             placed = [a, b] if rng.random() < 0.5 else [b, a]
             cases.append(skeleton_case(rng, placed, fbmode, nprobe=1, final=rng.random() < 0.5))
     # three to five rules
-    n_multi = 300 if tier == "quick" else 6000
+    n_multi = 300 if tier == "quick" else 3000
     for _ in range(n_multi):
         k = rng.randint(3, 5)
         keys = rng.sample([("P", 0), ("P", 2), ("I", 0), ("I", 1), ("I", None)], k)
@@ -427,7 +418,7 @@ def generate(rng, tier):
             rule = (kind, key, rng.random() < 0.5, rng.random() < 0.5) if kind == "P" else (kind, key, rng.random() < 0.5)
             placed.append((rule, rng.randrange(5)))
         cases.append(skeleton_case(rng, placed, rng.randrange(3), nprobe=1))
-    n_rand = 1200 if tier == "quick" else 30000
+    n_rand = 1200 if tier == "quick" else 16000
     for _ in range(n_rand):
         cases.append(random_case(rng))
     return cases
